@@ -777,176 +777,195 @@ def check_writer_exit(ctx, repo):
 
 
 def check_setup(ctx, repo):
+    """`setup_task_paths`, loaded from its syntax tree, evaluated on a model
+    file system in which several spellings can denote one file (symbolic
+    link, `sub/..` detour): what is refused, what is removed, what is
+    returned (sa/lib_C10.py)."""
+    import itertools
+    from ..lib_C10 import FS, MPath, Model
     rel, name = SETUP
     func = repo.func(rel, name)
-    # module-level suffix constants read like the literals they stand for
-    from ..normalize import _cp, fold_constants
-    from ..core import link
-    orig = func
-    func = fold_constants(repo, rel, _cp(orig))
-    link(func)
-    func.parent = getattr(orig, "parent", None)
     params = [a.arg for a in func.args.args]
     if params[:2] != ["paths_in", "paths_out"]:
         raise AnalysisError("setup_task_paths signature changed: " +
                             str(params))
-    # role inference inside: OUT from paths_out, TEMP via with_suffix('~')
-    roles = Roles(func, {"paths_in": {"IN"}, "paths_out": {"OUT"}})
-    cfg = CFG(func)
-    # R10.3 (i)/(ii) stale removal of OUT and TEMP
-    destroyed = {"OUT": None, "TEMP": None, "IN": None}
-    for c in [n for n in walk(func) if isinstance(n, ast.Call)]:
-        k = classify(c)
-        if k and k[0] == "destroy":
-            for role in roles.of(k[1][0]):
-                destroyed[role] = c
-    # every destructive call of the set-up concerns this task's own output
-    # or temporary path – nothing else in the directory (another task's
-    # temp file may be this task's input)
-    for c in [n for n in walk(func) if isinstance(n, ast.Call)]:
-        k = classify(c)
-        if k and k[0] == "destroy":
-            rl = roles.of(k[1][0])
-            ok = bool(rl) and rl <= {"OUT", "TEMP"}
-            ctx.ob("R10.3", ok,
-                   f"`{short(c, 40)}` removes the task's own "
-                   f"{'/'.join(sorted(x.lower() for x in rl))} path" if ok
-                   else f"`{short(c, 50)}` removes a path that is neither "
-                   f"the task's output nor its temporary file (role "
-                   f"{sorted(rl) or 'unknown'}): files of other runs – "
-                   f"possibly this task's input – are deleted", node=c,
-                   label=f"destroys own paths only {short(c, 30)}")
-    for role in ("OUT", "TEMP"):
-        c = destroyed[role]
-        ctx.ob("R10.3", c is not None,
-               f"stale {role.lower()} files are removed before the task "
-               "starts" if c is not None else
-               f"no removal of stale {role.lower()} files",
-               node=c or func, label=f"stale-removal {role}")
-    ctx.ob("R10.3", destroyed["IN"] is None,
-           "input paths are never removed" if destroyed["IN"] is None else
-           "setup_task_paths removes an input path",
-           node=destroyed["IN"] or func, label="no-input-removal")
-    # temp derivation
-    temps = [c for c in walk(func) if isinstance(c, ast.Call)
-             and last_attr(c) == "with_suffix" and c.args
-             and (const_str(c.args[0]) or "").endswith("~")
-             and "OUT" in roles.of(c.func.value)]
-    ctx.ob("R10.3", bool(temps),
-           "temp path = output path with a suffix ending in '~'" if temps
-           else "temp path is not derived from the output path with a '~' "
-           "suffix", node=temps[0] if temps else func, label="temp-derivation")
-    # return tuple order (in, out, temp)
-    rets = [n for n in walk(func) if isinstance(n, ast.Return)]
-    ok = bool(rets)
-    for r in rets:
-        v = r.value
-        if not (isinstance(v, ast.Tuple) and len(v.elts) == 3
-                and roles.of(v.elts[0]) == {"IN"}
-                and roles.of(v.elts[1]) == {"OUT"}
-                and roles.of(v.elts[2]) == {"TEMP"}):
-            ok = False
-    ctx.ob("R10.3", ok, "returns (inputs, outputs, temps) in this order"
-           if ok else "return value is not (inputs, outputs, temps)",
-           node=rets[0] if rets else func, label="return-order")
+    m = Model(repo)
+    fails = {}
 
-    # R10.5 disjointness guard dominating each destructive call
-    unresolved = []
-    want_role = [None]
+    def fail(key, msg):
+        if "'MPath'" in msg and ("AttributeError" in msg
+                                 or "TypeError" in msg):
+            raise AnalysisError("check_setup: the model of pathlib.Path "
+                                "lacks what the code uses: " + msg[:300])
+        fails.setdefault(key, msg)
+    alias = {"/d/link.rtdc": "/d/in.rtdc", "/d/link2.rtdc": "/d/in2.rtdc",
+             "/d/tlink.rtdc~": "/d/in.rtdc",
+             "/d/olink.rtdc": "/d/out.rtdc"}
+    base_files = {"/d/in.rtdc", "/d/in2.rtdc", "/d/other.rtdc",
+                  "/d/other.rtdc~", "/d/third.rtdc~"}
+    ins = [("/d/in.rtdc",), ("/d/in.rtdc", "/d/in2.rtdc"),
+           ("/d/sub/../in.rtdc",)]
+    outs = ["/d/out.rtdc", "/d/out", "/d/link.rtdc", "/d/link2.rtdc",
+            "/d/sub/../in.rtdc", "/d/in.rtdc", "/d/in", "/d/in2",
+            "/d/tlink.rtdc", "/d/e/out.rtdc", "/d/olink.rtdc",
+            "/d/out.v2.rtdc"]
+    stale = [(), ("out",), ("temp",), ("out", "temp")]
+    n = 0
 
-    def disjoint_fact(e, truth):
-        # a comparison mentioning an IN-role and an OUT/TEMP-role value; the
-        # compared paths must be canonical (resolve()/realpath/samefile),
-        # otherwise symlinks and '..' spellings of the input slip through
-        for n in ast.walk(e):
-            if isinstance(n, (ast.Compare, ast.Call)):
-                rs = set()
-                for nm in ast.walk(n):
-                    if isinstance(nm, ast.Name):
-                        rs |= roles.of(nm)
-                if "IN" in rs and (rs & {"OUT", "TEMP"}) and (
-                        want_role[0] is None or want_role[0] in rs):
-                    if isinstance(n, ast.Compare):
-                        sides = [n.left] + list(n.comparators)
-                        canon = all(
-                            isinstance(sd, ast.Call) and (
-                                last_attr(sd) in ("resolve", "realpath",
-                                                  "samefile"))
-                            or not (names_in(sd) and any(
-                                roles.of(x) for x in ast.walk(sd)
-                                if isinstance(x, ast.Name)))
-                            for sd in sides)
-                        if not canon:
-                            unresolved.append(n)
-                            continue
-                    elif last_attr(n) not in ("samefile", "resolve",
-                                              "realpath"):
+    def canon_out(o):
+        return o if o.endswith(".rtdc") else o + ".rtdc"
+
+    def one(inputs, outputs, st, as_list_in, as_list_out, suffixes):
+        nonlocal n
+        fs = FS(base_files, alias)
+        for i in inputs:
+            fs.files.add(fs.canon(i))
+        outs2 = [canon_out(o) for o in outputs]
+        for o in outs2:
+            if "out" in st:
+                fs.files.add(fs.canon(o))
+            if "temp" in st:
+                fs.files.add(fs.canon(o + "~"))
+        before = set(fs.files)
+        cin = {fs.canon(i) for i in inputs}
+        a_in = list(inputs) if as_list_in else inputs[0]
+        a_out = list(outputs) if as_list_out else outputs[0]
+        r = m.call(fs, a_in, a_out, suffixes)
+        n += 1
+        what = (f"inputs {a_in!r}, outputs {a_out!r}, existing "
+                f"{sorted(before - base_files) or 'no stale files'}"
+                + (f" (links: {', '.join(k + ' -> ' + v for k, v in alias.items() if k in outputs or k[:-1] in outs2)})"
+                   if any(k in outputs or k[:-1] in outs2 for k in alias)
+                   else ""))
+        removed = set(m.fs.removed)
+        lost_inputs = cin - m.fs.files
+        if lost_inputs:
+            fail("inputs are never removed", f"{what}: the input "
+                 f"{sorted(lost_inputs)} is deleted by the set-up")
+        foreign = removed - {fs.canon(o) for o in outs2} - {
+            fs.canon(o + "~") for o in outs2}
+        bad_suffix = [i for i in inputs if MPath(fs, i).suffix
+                      not in suffixes]
+        clash_out = [o for o in outs2 if fs.canon(o) in cin]
+        if r[0] == "raise" and r[1] == "ValueError":
+            if removed:
+                fail("refusal removes nothing", f"{what}: refused with "
+                     f"ValueError after removing {sorted(removed)}")
+            clash_temp = [o for o in outs2 if fs.canon(o + "~") in cin]
+            if not (bad_suffix or clash_out or clash_temp):
+                fail("legitimate paths accepted", f"{what}: refused "
+                     f"({r[2][:80]}) although no output or temporary path "
+                     "denotes an input")
+            return
+        if r[0] != "ok":
+            fail("evaluates", f"{what}: -> {r!r}")
+            return
+        if bad_suffix:
+            fail("input suffix checked", f"{what}: input suffix "
+                 f"{MPath(fs, bad_suffix[0]).suffix!r} accepted, allowed "
+                 f"{suffixes}")
+            return
+        res = r[1]
+        if not (isinstance(res, tuple) and len(res) == 3):
+            fail("return shape", f"{what}: returned {res!r}")
+            return
+        rin, rout, rtemp = res
+        shape_ok = (isinstance(rin, list) == as_list_in
+                    and isinstance(rout, list) == as_list_out
+                    and isinstance(rtemp, list) == as_list_out)
+        lin = rin if isinstance(rin, list) else [rin]
+        lout = rout if isinstance(rout, list) else [rout]
+        ltemp = rtemp if isinstance(rtemp, list) else [rtemp]
+        if not shape_ok or not all(isinstance(x, MPath)
+                                   for x in lin + lout + ltemp) \
+                or [x.s for x in lin] != list(inputs) \
+                or [x.s for x in lout] != outs2 or len(ltemp) != len(lout):
+            fail("return shape", f"{what}: returned {res!r}, expected "
+                 f"(inputs, outputs with suffix .rtdc, one temporary path "
+                 f"per output) as {'lists' if as_list_out else 'paths'}")
+            return
+        if clash_out:
+            fail("aliasing output refused", f"{what}: accepted although the "
+                 f"output {clash_out[0]} denotes the input "
+                 f"{fs.canon(clash_out[0])}" + (
+                     f"; the set-up removed {sorted(removed & cin)}"
+                     if removed & cin else ""))
+        for o, t in zip(lout, ltemp):
+            if fs.canon(t.s) in cin:
+                fail("aliasing output refused", f"{what}: accepted although "
+                     f"the temporary path {t.s} denotes the input "
+                     f"{fs.canon(t.s)} (the task would write into its "
+                     "input)")
+            if not (t.parent == o.parent and t.name.endswith("~")
+                    and t.s != o.s):
+                fail("temp derivation", f"{what}: temporary path {t.s} for "
+                     f"output {o.s}: expected a sibling of the output whose "
+                     "name ends in '~'")
+        if len({fs.canon(t.s) for t in ltemp}) != len(ltemp) or {
+                fs.canon(t.s) for t in ltemp} & {fs.canon(o.s)
+                                                 for o in lout}:
+            fail("temp derivation", f"{what}: temporary paths "
+                 f"{[t.s for t in ltemp]} are not distinct from each other "
+                 "and from the outputs")
+        if foreign:
+            fail("removes own paths only", f"{what}: the set-up removed "
+                 f"{sorted(foreign)}, which is neither an output nor a "
+                 "temporary path of this task")
+        left = [p for p in [fs.canon(o.s) for o in lout] + [
+            fs.canon(t.s) for t in ltemp] if p in m.fs.files]
+        if left and not clash_out:
+            fail("stale files removed", f"{what}: {left} still exists "
+                 "after the set-up (a stale output / temporary file of an "
+                 "earlier run)")
+    for inputs in ins:
+        for o in outs:
+            for st in stale:
+                for li in (False, True):
+                    if len(inputs) > 1 and not li:
                         continue
-                    return True
-        return False
-
-    for role in ("OUT", "TEMP"):
-        c = destroyed[role]
-        if c is None:
-            continue
-        st = _stmt_of(c)
-        guarded = False
-        # the test must cover the paths of this very role (the temporary
-        # name can alias an input although the output does not)
-        want_role[0] = role
-        del unresolved[:]
-        # idiom 1: an earlier statement raises when an output aliases an
-        # input; the test may sit in loops over the path lists (no iteration
-        # = no paths = nothing to alias), the outermost such loop must
-        # dominate the removal
-        for node in cfg.nodes:
-            if node.kind == "test" and disjoint_fact(node.ast.test, True):
-                ids = cfg.ids_of(st)
-                cuts = False
-                for lab in ("T", "F"):
-                    succ = [b for (b, l) in cfg.succ[node.id] if l == lab]
-                    r = cfg.reach(succ, include_sources=True)
-                    if not any(i in r for i in ids) and succ:
-                        cuts = True
-                outer = node.ast
-                for a in ancestors(node.ast):
-                    if isinstance(a, ast.FunctionDef):
-                        break
-                    if isinstance(a, (ast.For, ast.If)):
-                        outer = a
-                    else:
-                        break
-                heads = set(cfg.ids_of(outer))
-                dom = all(cfg.always_before(i, lambda n: n.id in heads)
-                          for i in ids)
-                if cuts and dom:
-                    guarded = True
-        # idiom 2: the comprehension / if around the unlink tests disjointness
-        for a in ancestors(c):
-            tests = []
-            if isinstance(a, (ast.ListComp, ast.GeneratorExp)):
-                for g in a.generators:
-                    tests += g.ifs
-            elif isinstance(a, ast.If):
-                tests.append(a.test)
-            if any(disjoint_fact(t, True) for t in tests):
-                guarded = True
-        # must be reachable before: the raising test has to dominate
-        if not guarded and unresolved:
-            ctx.ob("R10.5", False,
-                   f"the alias test `{short(unresolved[0], 60)}` compares "
-                   "paths that are not canonicalised (resolve()/samefile): an "
-                   "output that reaches the input through a symlink or '..' "
-                   "is not recognised and the input is removed",
-                   node=unresolved[0], label=f"alias-guard {role}")
-            continue
-        ctx.ob("R10.5", guarded,
-               f"removal of stale {role.lower()} paths is guarded by a test "
-               "that they do not alias an input" if guarded else
-               f"`{short(c, 50)}` removes a path that may be the task's own "
-               "input (output == input): the measurement is deleted before "
-               "it is read",
-               node=c, label=f"alias-guard {role}")
+                    one(inputs, (o,), st, li, False, [".rtdc"])
+            one(inputs, (o, "/d/second.rtdc"), ("out", "temp"), True, True,
+                [".rtdc"])
+            one(inputs, ("/d/first.rtdc", o), ("temp",), True, True,
+                [".rtdc"])
+    # an input that carries the temporary name of the output (suffix check
+    # disabled by the caller), an unsupported suffix
+    one(("/d/out.rtdc~",), ("/d/out.rtdc",), (), False, False,
+        [".rtdc", ".rtdc~"])
+    one(("/d/in.tdms",), ("/d/out.rtdc",), ("out",), False, False, [".rtdc"])
+    one(("/d/in.rtdc", "/d/in.tdms"), ("/d/out.rtdc",), ("out",), True,
+        False, [".rtdc"])
+    ctx.stat("R10.3 model evaluations", n)
+    if n < 150:
+        raise AnalysisError(f"only {n} model evaluations of the set-up")
+    obs = [
+        ("R10.3", "evaluates", "the set-up evaluates on every model case"),
+        ("R10.3", "input suffix checked", "inputs with an unsupported "
+         "suffix are refused"),
+        ("R10.3", "return shape", "returns (inputs, outputs, temporaries), "
+         "lists for lists, outputs completed to .rtdc"),
+        ("R10.3", "temp derivation", "every temporary path is a sibling of "
+         "its output with a name ending in '~', distinct per output"),
+        ("R10.3", "stale files removed", "stale output and temporary files "
+         "are gone after the set-up"),
+        ("R10.3", "removes own paths only", "nothing but the task's own "
+         "output / temporary paths is removed"),
+        ("R10.3", "legitimate paths accepted", "paths that denote no input "
+         "are accepted"),
+        ("R10.5", "inputs are never removed", "no input is ever deleted"),
+        ("R10.5", "aliasing output refused", "an output or temporary path "
+         "that denotes an input – by name, through a link, a `..` detour or "
+         "the suffix completion – is refused"),
+        ("R10.5", "refusal removes nothing", "a refusal happens before "
+         "anything is removed"),
+    ]
+    for rule, key, good in obs:
+        ok = key not in fails
+        ctx.ob(rule, ok, good if ok else fails[key], node=func,
+               label="model: " + key)
+    unknown = set(fails) - {k for _, k, _ in obs}
+    if unknown:
+        raise AnalysisError(f"check_setup: unregistered verdicts {unknown}")
 
 
 MUTANTS = [
